@@ -958,46 +958,34 @@ class FortranFile:
     def apply_change(self, change: dict) -> bool:
         """Apply a change to the file."""
 
-        def check_change_reparse(line_no: int) -> bool:
-            if (line_no < 0) or (line_no > self.nLines - 1):
-                return True
-            pre_lines, curr_line, _ = self.get_code_line(line_no, forward=False)
-            # Skip comment lines
-            if self.fixed:
-                if FRegex.FIXED_COMMENT.match(curr_line):
-                    return False
-            else:
-                if FRegex.FREE_COMMENT.match(curr_line):
-                    return False
-            # Check for line labels and semicolons
-            full_line = "".join(pre_lines) + curr_line
-            full_line, line_label = strip_line_label(full_line)
-            if line_label is not None:
-                return True
-            line_stripped = strip_strings(full_line, maintain_len=True)
-            if line_stripped.find(";") >= 0:
-                return True
-            # Find trailing comments
-            comm_ind = line_stripped.find("!")
-            if comm_ind >= 0:
-                line_no_comment = full_line[:comm_ind]
-            else:
-                line_no_comment = full_line
-            # Various single line tests
-            if FRegex.END_WORD.match(line_no_comment):
-                return True
-            if FRegex.IMPLICIT.match(line_no_comment):
-                return True
-            if FRegex.CONTAINS.match(line_no_comment):
-                return True
-            # Generic "non-definition" line
-            if FRegex.NON_DEF.match(line_no_comment):
+        def check_change_reparse(line_no: int, line: str) -> bool:
+            """A line needs no re-indexing only if it can neither define anything
+            nor change where statements begin and end: a blank line, a plain
+            comment, or an assignment/CALL on a single line"""
+            if line.strip() == "":
                 return False
-            # Loop through tests
-            for test in def_tests:
-                if test(line_no_comment):
+            if self.fixed:
+                if FRegex.FIXED_COMMENT.match(line):
+                    return FRegex.FIXED_DOC.match(line) is not None
+                # Label field and continuation column
+                if line[:6].strip() != "":
                     return True
-            return False
+            elif FRegex.FREE_COMMENT.match(line):
+                return FRegex.FREE_DOC.match(line) is not None
+            # Continuation marks, comments, character literals, separators and
+            # directives decide where statements begin and end
+            if any(char in line for char in "&!;'\"#"):
+                return True
+            for other in (line_no - 1, line_no + 1):
+                if 0 <= other < self.nLines:
+                    other_line = self.contents_split[other]
+                    if "&" in other_line or (
+                        self.fixed and FRegex.FIXED_CONT.match(other_line)
+                    ):
+                        return True
+            if strip_line_label(line)[1] is not None:
+                return True
+            return FRegex.NON_DEF.match(line) is None
 
         self.hash = None
         text = change.get("text", "")
@@ -1024,14 +1012,14 @@ class FortranFile:
 
         # Check for single line edit
         if (start_line == end_line) and (len(text_split) == 1):
-            # What the line defined before the edit is gone afterwards
-            reparse_old = check_change_reparse(start_line)
             prev_line = self.contents_split[start_line]
-            self.contents_split[start_line] = (
-                prev_line[:start_col] + text + prev_line[end_col:]
-            )
-            self.contents_pp[start_line] = self.contents_split[start_line]
-            return check_change_reparse(start_line) or reparse_old
+            new_line = prev_line[:start_col] + text + prev_line[end_col:]
+            self.contents_split[start_line] = new_line
+            self.contents_pp[start_line] = new_line
+            # What the line defined before the edit is gone afterwards
+            return check_change_reparse(
+                start_line, prev_line
+            ) or check_change_reparse(start_line, new_line)
 
         # Apply standard change to document
         new_contents = []
